@@ -14,5 +14,5 @@ cp "$here/$id"/*_test.go "$wt/$pkg/" 2>/dev/null || true
 if [ -f "$here/$id/run.sh" ]; then
 	(cd "$wt" && sh "$here/$id/run.sh")
 else
-	(cd "$wt" && go test -vet=off -count=1 -run "TestDefect$id" "./$pkg/")
+	(cd "$wt" && go test -vet=off -count=1 -timeout 90s -run "TestDefect$id" "./$pkg/")
 fi
